@@ -384,10 +384,12 @@ pub fn run(ctx: &Ctx) -> PropResult {
     wls.push(Workload::cases("offset_local_twins", ctx.count(4_000, 40_000), |rec, _, rng| super::localzone::twin_case(rec, rng, "C04", super::walk::Family::Arithmetic)));
     wls.push(Workload::cases("date_api_walks", ctx.count(20_000, 800_000), |rec, _, rng| super::walk::walk_date(rec, rng, "C04", super::walk::Family::Arithmetic)));
     wls.push(Workload::cases("api_walks", ctx.count(30_000, 1_500_000), |rec, _, rng| super::walk::walk(rec, rng, "C04", super::walk::Family::Arithmetic)));
+    wls.push(Workload::cases("trait_dispatch_vs_method_syntax", ctx.count(8_000, 200_000), |rec, _, rng| super::ufcs::case(rec, rng, "C04")));
     let out = run_workloads(ctx, wls);
     let mut meta = PropMeta::default();
     meta.rule = "instant (10 strata incl. 2^k·unit from 0001-01-01 / 1970-01-01 and the seconds at the range ends, all eras, two-day margin when an offset is attached) x offset (whole ±86399 s) x method (14 add_/sub_ methods round-robin) x count from {0..100, u32::MAX−0..2, 2^31±1, the counts at which count·unit crosses 2^63/2^64 ns ±2, the one-day-wide band of counts below 2^31/2^32/2^63/2^64 ns ÷ unit (a time of day is added to the product afterwards), the model-computed last representable count −1..+2, <2^20, uniform u32}; Durations {sub-day, multi-day, 2^32 days+ε, u64::MAX s, at the representability edge ±{1 ns,1 s,1 d} (also from the first/last second of the range: a Duration spanning the whole range), magic magnitudes 2^k·unit ± jitter built with Duration::new, wide}; DateTime ± Time (incl. amounts that land the result exactly on a midnight ± 1 ns); random API walks of 4–14 steps in which arithmetic steps are judged and set_*/clear/month/offset steps only move the state, every step observed through nanos_since, timestamp()+nano(), all getters and as_ymdhms; Date add/sub_days and ± Duration (whole days). Oracle: i128 instant arithmetic — representable ⇒ exact instant, same offset, day-nanoseconds < 24 h; not representable ⇒ the call must panic (any panic). Non-trivial = count > 100, BC start, era crossing or unrepresentable target (methods); every operator case. Distinct by input hash. Offset::Local twins: the same arithmetic step on the value carrying Offset::Local (system zone hooked to resolve to o; synthetic fixed zones and real zones with transitions) and on its Offset::Fixed(o) twin gives the same read-outs. Receivers whose local reading lies beyond a range end (outward offset): moving them inwards or by zero must work on the UTC instant, moving them out must panic. Offsets of a day or more on receivers and on the Time operand in one case of ten. Date API walks. Sibling call sequences.".into();
-    meta.required_bins = vec![
+    meta.rule.push_str(" The property's trait methods are also called through the trait (generic code / UFCS) and must agree with method syntax on the same operands (a type may grow inherent twins of its trait methods).");
+    meta.required_bins = vec!["trait-dispatch/compared", 
         "outward/local-reading-beyond-the-range-end",
         "date-walk/with-judged-steps",
         "sequence/sibling-calls",
